@@ -25,6 +25,13 @@ const (
 	TermTimeout
 )
 
+// Stall is one pause of a slow peer.
+type Stall struct {
+	AtByte int           `json:"at_byte"`
+	Window int           `json:"window"`
+	For    time.Duration `json:"for"`
+}
+
 // WriteFault makes the j-th client Write fail after accepting Accept bytes.
 type WriteFault struct {
 	Accept int
@@ -70,7 +77,12 @@ type Conn struct {
 	PeerStalled  bool
 	SendWindow   int
 	stalledBytes int
-	brokenPipe   bool
+	// stalled holds what the socket buffer took while the peer was not reading; Resume hands it to the peer.
+	stalled [][]byte
+	// StallPlan (ascending AtByte): once the peer has received AtByte bytes in total it stops reading for For of
+	// simulated time (socket buffer: Window bytes), then reads on - a slow peer, not a dead one.
+	StallPlan  []Stall
+	brokenPipe bool
 	// WriteFaults by index of the client's Write call.
 	WriteFaults map[int]WriteFault
 
@@ -138,6 +150,9 @@ func (n *Net) grantDial(t *Task) string {
 	}
 	c := &Conn{ID: len(n.Conns), net: n}
 	n.Conns = append(n.Conns, c)
+	if c.ID == 0 && len(n.s.cfg.SlowPeer) > 0 {
+		c.StallPlan = append([]Stall(nil), n.s.cfg.SlowPeer...)
+	}
 	if n.Setup != nil {
 		n.Setup(c)
 	}
@@ -377,6 +392,9 @@ func (n *Net) grantWrite(t *Task) string {
 			}
 			c.stalledBytes += k
 			c.BytesFromClient += k
+			if k > 0 {
+				c.stalled = append(c.stalled, b[:k])
+			}
 		}
 		n.s.Fault("write-deadline-expired")
 		t.resp.n = k
@@ -391,6 +409,7 @@ func (n *Net) grantWrite(t *Task) string {
 	if c.PeerStalled {
 		// accepted by the socket buffer, never seen by the peer
 		c.stalledBytes += len(b)
+		c.stalled = append(c.stalled, b)
 		t.resp.n = len(b)
 		c.BytesFromClient += len(b)
 		return fmt.Sprintf("%d (buffered, peer stalled)", len(b))
@@ -424,7 +443,43 @@ func (n *Net) grantWrite(t *Task) string {
 	if n.Peer != nil && len(b) > 0 {
 		n.Peer.Data(c, b)
 	}
+	if len(c.StallPlan) > 0 && c.BytesFromClient >= c.StallPlan[0].AtByte && !c.PeerStalled {
+		st := c.StallPlan[0]
+		c.StallPlan = c.StallPlan[1:]
+		c.PeerStalled, c.SendWindow = true, st.Window
+		n.s.Fault("peer-slow")
+		n.s.After(st.For, fmt.Sprintf("peer of conn%d reads on", c.ID), func() { c.Resume() })
+	}
 	return fmt.Sprintf("%d", t.resp.n)
+}
+
+// Resume: the peer reads again. What the socket buffer took meanwhile reaches it now, in order.
+func (c *Conn) Resume() {
+	if !c.PeerStalled {
+		return
+	}
+	c.PeerStalled = false
+	for _, t := range c.net.s.tasks {
+		if t.state == stWaiting && t.req.kind == opWrite && t.req.conn == c {
+			c.net.s.Fault("write-blocked-until-peer-read-on")
+		}
+	}
+	st := c.stalled
+	c.stalled, c.stalledBytes = nil, 0
+	for _, b := range st {
+		c.Wrote = append(c.Wrote, b)
+		c.WroteAt = append(c.WroteAt, c.net.s.seq)
+		if c.net.Peer != nil && len(b) > 0 {
+			c.net.Peer.Data(c, b) // also after the client closed: what was written before the close arrives
+		}
+	}
+}
+
+// StallFor: the peer stops reading now (socket buffer: window bytes) and reads on after d.
+func (c *Conn) StallFor(window int, d time.Duration) {
+	c.PeerStalled, c.SendWindow = true, window
+	c.net.s.Fault("peer-slow")
+	c.net.s.After(d, fmt.Sprintf("peer of conn%d reads on", c.ID), func() { c.Resume() })
 }
 
 func (n *Net) grantClose(t *Task) string {
